@@ -83,6 +83,15 @@ def drive_case(case, extra):
             names = list(fn.__code__.co_varnames[:fn.__code__.co_kwonlyargcount])
             rec["fn"] = _vals(lambda env: fn(**{n: env[n] for n in names}), envs)
         rec["imp"] = ser.obj_to_json(lambda: ASTToPymbolic()(to_python_ast(e)))
+
+        # from-AST on the AST *Python* makes of the generated program (the compile path's
+        # source text): the only way an AST with comparisons, not, and/or reaches the importer
+        def imp_src():
+            from pymbolic.compiler import CompileMapper
+            from pymbolic.mapper.stringifier import PREC_NONE
+            src = CompileMapper()(e, PREC_NONE)
+            return ASTToPymbolic()(ast.parse(src, mode="eval").body)
+        rec["imps"] = ser.obj_to_json(imp_src)
     return rec
 
 
@@ -124,7 +133,7 @@ def classify(out, verdicts, byid):
             sig = hit or {"path": b["path"], "clause": b["v"]["v"], "root": rec["e"]["t"],
                           "kinds": sorted(kinds)}
             out.fail(sig, {"case": {"id": rec["id"], "e": rec["e"], "listed": rec["listed"]},
-                           "recorded": {k: rec.get(k) for k in ("params", "c", "cp", "a", "fn", "imp")},
+                           "recorded": {k: rec.get(k) for k in ("params", "c", "cp", "a", "fn", "imp", "imps")},
                            "env_index": b["v"]["env"]})
 
 
@@ -159,7 +168,7 @@ def run(tier, seed, out):
     out.extra["design_level_failures_on_model"] = len(gen.design)
     out.extra["design_level_examples"] = [d["de"] for d in gen.design[:3]]
     recs = kit.drive("harness.c13", "drive_case", cases, {"envs": envs}, chunk=300)
-    out.evaluations += sum((2 + (3 if r["full"] else 0)) * len(envs) for r in recs)
+    out.evaluations += sum((2 + (4 if r["full"] else 0)) * len(envs) for r in recs)
 
     def corrupt(r):      # a recorded compiled value off by one / a swapped parameter order
         if r["c"].get("r") == "vals" and r["e"]["t"] in ("Sum", "Product") \
